@@ -62,9 +62,25 @@ def run(ctx):
     jv = sm.method('Simulation', 'jvec')
     ps = au.params(jv)
     v = ps[1]
+    # bound-method aliases (`chain = self.model.map.derivative_chain`)
+    alias = {ast.unparse(n.targets[0]) for n in ast.walk(jv)
+             if isinstance(n, ast.Assign) and isinstance(
+                 n.value, ast.Attribute) and
+             n.value.attr == 'derivative_chain'}
     chains = [c for c in au.calls(jv) if ast.unparse(c.func).endswith(
-        '.derivative_chain')]
+        '.derivative_chain') or ast.unparse(c.func) in alias]
     ctx.anchor(len(chains) == 3, 'three derivative_chain calls in jvec')
+    # the chain rule works IN PLACE on the vector: once per jvec call, not
+    # once per source/frequency pair (a loop or the per-task builder would
+    # multiply the derivative in again for every task)
+    rep = [c for c in chains if any(isinstance(a, (
+        ast.For, ast.While, ast.FunctionDef, ast.Lambda, ast.ListComp,
+        ast.GeneratorExp)) for a in au.ancestors(c, jv))]
+    ctx.check('C08.V1.chain', 'jvec applies the chain rule once',
+              not rep, 'derivative_chain modifies the vector in place and is '
+              'called inside a loop / the per-task builder: for the n-th '
+              '(source, frequency) pair the derivative of the mapping is '
+              'applied n times', ctx.where(sm, rep[0] if rep else jv))
     idxnames = set()
     for c in chains:
         ix = c.args[0].slice.elts[0] if isinstance(
@@ -86,7 +102,7 @@ def run(ctx):
                 fe = FiniteEval(env, where=sm.rel)
                 ctx.anchor(len(nassign) == 1, 'index n of the z part')
                 idx = fe.ev(nassign[0].value)
-            got.append((int(idx), ast.unparse(c.args[1])))
+            got.append((int(idx) % (1 + hy + hz), ast.unparse(c.args[1])))
         want = [(0, 'self.model.property_x')]
         if hy:
             want.append((1, 'self.model.property_y'))
